@@ -56,18 +56,20 @@ ClientResult(s) ==
     LET ms == Msgs(s.ev) IN
     IF s.rej # "none" THEN [st |-> "error"]
     ELSE IF ms # <<>> /\ ms[Len(ms)].end = "F"
-         THEN [st |-> "ok", code |-> ms[Len(ms)].sl[2], reason |-> ms[Len(ms)].sl[3], hs |-> ms[Len(ms)].hs,
-               body |-> ms[Len(ms)].body]
+         THEN [st |-> "ok", code |-> ms[Len(ms)].sl[2], hs |-> ms[Len(ms)].hs, body |-> ms[Len(ms)].body]
          ELSE [st |-> "pending"]
-ClientBind(s, o) ==
+(* what the fetch may have returned.  Permissive: the limit of a close-delimited body may be enforced only
+   when the message ends; a gzip body that will exceed the limit may be refused as soon as the decoder notices *)
+ClientBind(s, o, final) ==
     LET res == ClientResult(s) IN
-    /\ o.st = res.st
-    /\ res.st = "ok" => /\ o.code = res.code /\ o.reason = res.reason /\ SameFields(res.hs, o.hs)
-                        /\ o.body = res.body
-    /\ Len(o.streamed) <= s.maxb
-    /\ o.logs = <<>>
+    /\ \/ o.st = res.st
+       \/ (res.st = "error" /\ s.rej = "bodysize" /\ o.st = "pending" /\ ~final)
+       \/ (res.st = "pending" /\ s.gz /\ Len(GzDec(cfg, s)) > s.maxb /\ o.st = "error")
+    /\ (res.st = "ok" /\ o.st = "ok") => (o.code = res.code /\ SameFields(res.hs, o.hs) /\ o.body = res.body)
+    /\ Len(o.streamed) <= cfg.maxBody
+    /\ o.logs = <<>> /\ o.errors = <<>>
 
-Bind == IF cfg.mode = "server" THEN ServerBind(r', Ev[l].obs) ELSE ClientBind(r', Ev[l].obs)
+Bind == IF cfg.mode = "server" THEN ServerBind(r', Ev[l].obs) ELSE ClientBind(r', Ev[l].obs, Ev[l].a = "eof")
 
 TrArrive == IsEvent("arrive") /\ Arrive(Ev[l].args[1]) /\ Bind
 TrEof == IsEvent("eof") /\ PeerClose /\ Bind
